@@ -565,6 +565,37 @@ fn c09_classify_range(ctx: &mut Ctx, lo: u64, hi: u64, step: u64) {
     }
 }
 
+/// classification + write-read round trip on a machine whose memory is whatever the loader left (the shadow holds it)
+fn c09_classify_loaded(ctx: &mut Ctx, lo: u64, hi: u64, step: u64) {
+    let mut a = lo;
+    while a < hi {
+        let addr = a as u32;
+        let m = mapped(addr);
+        let r = ctx.m.cpu.bus.read(addr);
+        ctx.st.cases += 1;
+        ctx.st.nontrivial += 1;
+        if r.is_ok() != m {
+            ctx.custom_violation("c09", format!("loaded machine: read {:06x}: accessible must be {}, got {}", addr, m, r.is_ok()), json!({"op": "loaded", "addr": format!("{:x}", addr)}), json!(m), json!(r.is_ok()));
+        } else if m && plain_storage(addr) && !sem::is_timer_reg(addr) {
+            let old = r.unwrap();
+            if Some(old) != ctx.m.peek_shadow(addr) {
+                ctx.custom_violation("c09", format!("loaded machine: read {:06x} returns {:02x}, the storage byte is {:?}", addr, old, ctx.m.peek_shadow(addr)), json!({"op": "loaded", "addr": format!("{:x}", addr)}), json!(null), json!(null));
+            }
+            let newv = !old;
+            let w = ctx.m.cpu.bus.write(addr, newv);
+            let back = ctx.m.cpu.bus.read(addr).ok();
+            if w.is_err() || back != Some(newv) {
+                ctx.custom_violation("c09", format!("loaded machine: wrote {:02x} to {:06x}, a later read returns {:?}", newv, addr, back), json!({"op": "loaded", "addr": format!("{:x}", addr)}), json!(newv), json!(back));
+            }
+            let _ = ctx.m.cpu.bus.write(addr, old);
+        }
+        if ctx.stop {
+            return;
+        }
+        a += step;
+    }
+}
+
 fn c09_units(tier: Tier) -> Vec<Unit> {
     let mut units = Vec::new();
     units.push(Unit::new(
@@ -738,6 +769,32 @@ fn c09_units(tier: Tier) -> Vec<Unit> {
             },
         ));
     }
+    // ---- a machine that has been through the real ELF loader (read+execute-only and read+write segments): storage
+    //      stays storage - the classification and the write-read round trip hold inside and around the loaded image
+    units.push(Unit::new(
+        "loaded-machine",
+        8,
+        "after the real elf::load of an image with a read+execute-only PT_LOAD (H'416900-H'4C0FFF) and a read+write one behind it: classification and write-read round trip through the bus for every 97th byte of DRAM, every byte within 64 of the load base, of the segment ends and of the DRAM ends, and every byte of on-chip RAM, the vector area and both register blocks",
+        move |ctx, chunk| {
+            if !super::longprog::load_loaded_machine(ctx, chunk) {
+                return;
+            }
+            let mut ranges: Vec<(u64, u64, u64)> = vec![(mach::DRAM_LO as u64, mach::DRAM_HI as u64 + 1, 97)];
+            for e in [0x416900u64, 0x4c1000, 0x4c2000, 0x4c2008, 0x400000, 0x600000, 0x480000, 0x420000] {
+                ranges.push((e - 64, e + 64, 1));
+            }
+            ranges.push((mach::RAM_LO as u64, mach::RAM_HI as u64 + 1, 1));
+            ranges.push((0, 0x100, 1));
+            ranges.push((mach::IO1_LO as u64, mach::IO1_HI as u64 + 1, 1));
+            ranges.push((mach::IO2_LO as u64, mach::IO2_HI as u64 + 1, 1));
+            for (i, (lo, hi, step)) in ranges.into_iter().enumerate() {
+                if i as u64 % 8 == chunk {
+                    c09_classify_loaded(ctx, lo, hi.min(1 << 24), step);
+                }
+            }
+            ctx.m = crate::hv::mach::Mach::new();
+        },
+    ));
     // ---- histories of B/W/L writes and reads through the CPU's absolute-address path
     let edges: [u32; 10] = [0x000000, 0x0000ff, 0x400000, 0x5fffff, 0xfee000, 0xfee0ff, 0xffbf20, 0xffff1f, 0xffff20, 0xffffe9];
     let maxlen = if tier == Tier::Thorough { 4 } else { 3 };
@@ -910,6 +967,17 @@ pub fn replay_c09reg(ctx: &mut Ctx, case: &Value) -> bool {
 pub fn replay_c09(ctx: &mut Ctx, case: &Value) -> bool {
     let addr = u32::from_str_radix(case["addr"].as_str().unwrap_or("0"), 16).unwrap_or(0);
     let before = ctx.st.violations_total;
+    if case["op"] == "loaded" {
+        if !super::longprog::load_loaded_machine(ctx, 99) {
+            println!("could not set up the loaded machine");
+            return false;
+        }
+        c09_classify_loaded(ctx, addr as u64, addr as u64 + 1, 1);
+        for v in ctx.st.violations.iter() {
+            println!("  {}", v.what);
+        }
+        return ctx.st.violations_total == before;
+    }
     c09_classify_range(ctx, addr as u64, addr as u64 + 1, 1);
     println!("address {:08x}: mapped per the statement = {}", addr, mapped(addr));
     for v in ctx.st.violations.iter() {
